@@ -57,6 +57,8 @@ impl Prop for C12 {
         v.extend(crate::props::tty::tty_cases(&crate::props::tty::OPS_C12, tier, seed));
         // the input arrives through a named pipe that is written exactly once (`mkfifo in; producer > in &`): same outcome as a regular file
         for op in ["decrypt", "pass-decrypt", "encrypt", "pass-encrypt"] { for plen in [10usize, 70000] { v.push(case(&[("op", "fifo-input".into()), ("cmd", op.into()), ("plen", plen.to_string()), ("seed", rng.next().to_string())])); } }
+        // -o names something that is not a regular file (the null device, the process's own standard output as /dev/stdout): same outcome as with a regular file
+        for op in ["decrypt", "pass-decrypt", "encrypt", "pass-encrypt"] { for target in ["/dev/null", "/dev/stdout"] { v.push(case(&[("op", "special-output".into()), ("cmd", op.into()), ("target", target.into()), ("plen", "70000".into()), ("seed", rng.next().to_string())])); } }
         // the output cannot be delivered (-o on a full device, standard output on a full device, standard output on a pipe whose reader left):
         // whichever way the output is wired, the tool must not report success
         v.extend(crate::props::c10::C10.cases(tier, seed ^ 0x12).into_iter().filter(|c| get(c, "op") == "cli-devfull"));
@@ -65,6 +67,25 @@ impl Prop for C12 {
     fn run(&self, c: &Case, m: &mut Model) -> Outcome {
         if get(c, "kind") == "tty" { return crate::props::tty::run_tty_case(c, m); }
         if get(c, "op") == "cli-devfull" { return crate::props::c10::C10.run(c, m); }
+        if get(c, "op") == "special-output" {
+            let mut o = Outcome::default();
+            let fx = fixtures();
+            let mut rng = Rng::new(get(c, "seed").parse().unwrap_or(0));
+            let cmd = get(c, "cmd"); let plen = getn(c, "plen"); let target = get(c, "target"); let plain = crate::gen::payload(rng.next(), plen); let pw = "pass123";
+            let keym = !cmd.starts_with("pass"); let decrypting = cmd.ends_with("decrypt");
+            let input: Vec<u8> = if !decrypting { plain.clone() } else if keym { imp::key_encrypt(&fx.alice.sk, &fx.alice.pk, &fx.bob.pk, None, None, &plain, &NOSCRIPT).out } else { imp::pass_encrypt(pw.as_bytes(), &rng.bytes(32), &plain, &NOSCRIPT).out };
+            let world = World { files: vec![("in.bin".into(), input), (KR.to_string(), keyring(&[(&fx.alice, true), (&fx.bob, true)]).into_bytes())], env: vec![("KESTREL_PASSWORD".into(), if keym { if decrypting { fx.bob.pw.into() } else { fx.alice.pw.into() } } else { pw.into() })], stdin: vec![] };
+            let args: Vec<String> = match cmd { "decrypt" => sv(&["decrypt", "in.bin", "-t", "bob", "-o", target, "-k", KR, "--env-pass"]), "encrypt" => sv(&["encrypt", "in.bin", "-t", "bob", "-f", "alice", "-o", target, "-k", KR, "--env-pass"]),
+                "pass-decrypt" => sv(&["password", "decrypt", "in.bin", "-o", target, "--env-pass"]), _ => sv(&["password", "encrypt", "in.bin", "-o", target, "--env-pass"]) };
+            let obs = run_kestrel(&world, &args);
+            o.validated += 1; o.nontrivial = Some(format!("special-output/{}/{}", cmd, target)); o.tags.push(format!("-o {}: {} -> exit {:?}", target, cmd, obs.exit));
+            o.impl_obs = format!("exit={:?} stdout={}B {}", obs.exit, obs.stdout.len(), obs.stderr.trim().chars().take(100).collect::<String>()); o.model_obs = "as with a regular file: exit 0".into();
+            let label = format!("kestrel {}", args.join(" "));
+            if obs.exit != Some(0) { o.oracle_fail = Some(("outcome-independent-of-wiring".into(), format!("{}: exit {:?} ({}) — the same request with -o on a regular file, or with the output redirected by the shell, succeeds", label, obs.exit, obs.stderr.trim().chars().take(120).collect::<String>()))); }
+            else if target == "/dev/stdout" { let want_len = if decrypting { plen } else { (if keym { 132 } else { 36 }) + 32 * plen.div_ceil(65536).max(1) + plen };
+                if obs.stdout.len() != want_len || (decrypting && obs.stdout != plain) { o.oracle_fail = Some(("exit-0=>full-plaintext-delivered".into(), format!("{}: exit 0 but {} bytes arrived on standard output, expected {}", label, obs.stdout.len(), want_len))); } }
+            return o;
+        }
         if get(c, "op") == "fifo-input" {
             let mut o = Outcome::default();
             let fx = fixtures();
